@@ -100,7 +100,9 @@ def _run_collect(resources, steps):
     with quiet():
         ds = Flow(Src(copy.deepcopy(resources)), *steps).datastream()
         it = iter(ds.res_iter)
-        taken = list(it)
+        # (exactly as many as the descriptor lists: the iterator is not driven past its last resource, which is where steps
+        # tidy up - join closes its stores there - and it is dropped before the first row is read)
+        taken = [next(it) for _ in ds.dp.descriptor.get('resources', [])]
         del it
         gc.collect()
         rows = [list(r) for r in taken]
